@@ -273,8 +273,124 @@ def step_wiring(run):
         report(run, qq, name, 'panic reachable in search/iter_deep: %s %s' % (ob.where.split('::')[-1], ob.msg[:80]))
 
 
+def step_orderer(run, n):
+    """ORD: the real MoveOrderer::new + next on n moves yields every move exactly once and then None.
+    n <= 6: fully symbolic (capture / promotion flags, captured kind, killer slots, table hint -> every score pattern), merged
+    execution; larger n (up to 218, the maximum number of legal moves, and around powers of two): distinct quiet moves, no
+    killers, empty table -- a capacity check (buffer sizes, index widths), concrete apart from the position key."""
+    name = 'ORD/n%d' % n
+    ex = run.executor()
+    symbolic = n <= 6
+    plies = []
+    for i in range(n):
+        if symbolic:
+            p = B.SymPly('om%d' % i, piece=B.KNIGHT, color=0, free_flags=True)
+            v = list(p.value())
+            kind = z3.BitVec('om%d_kind' % i, 64)
+            cap_some = z3.Bool('om%d_captures' % i)
+            cap_kind = z3.BitVec('om%d_cap_kind' % i, 64)
+            pro_some = z3.Bool('om%d_promotes' % i)
+            ex.assume(z3.And(z3.ULT(kind, 6), z3.ULT(cap_kind, 6)))
+            v[0] = (CI(i // 8, 8), CI(i % 8, 8))                       # identity of the move: its start square
+            v[2] = Enum(kind, {k: (B.color_v(0),) for k in range(6)})
+            v[3] = Enum(z3.If(cap_some, z3.BitVecVal(1, 64), z3.BitVecVal(0, 64)), {1: (Enum(cap_kind, {k: (B.color_v(1),) for k in range(6)}),), 0: ()})
+            v[4] = Enum(z3.If(pro_some, z3.BitVecVal(1, 64), z3.BitVecVal(0, 64)), {1: (B.kind_v(B.QUEEN, 0),), 0: ()})
+            plies.append(tuple(v))
+        else:
+            plies.append(((CI((i // 8) % 8, 8), CI(i % 8, 8)), (CI((i // 512) % 8, 8), CI((i // 64) % 8, 8)), B.kind_v(B.KNIGHT, 0), B.opt_kind_v(None, 0), B.opt_kind_v(None, 0),
+                          False, False, False, CI(0, 16), tuple(B.status_v(True) for _ in range(4))))
+    TT = 'board::transposition_table::TRANSPOSITION_TABLE'
+    from .absgame import MapV
+    key = 4242
+    if symbolic:
+        pick = z3.BitVec('ord_tt_pick', 8)
+        ex.assume(z3.ULT(pick, n))
+        mv = plies[0]
+        for i in range(1, n):
+            mv = ite(pick == i, plies[i], mv)
+        ex.static_values[TT] = MapV({key: (z3.Bool('ord_tt_has'), (CI(0, 16), CI(1, 8), Enum(0, {0: (), 1: (), 2: ()}), mv))})
+        kp = [z3.BitVec('ord_killer%d_pick' % j, 8) for j in range(2)]
+        killers = []
+        for j in range(2):
+            kv = plies[0]
+            for i in range(1, n):
+                kv = ite(kp[j] == i, plies[i], kv)
+            killers.append(Enum(z3.If(z3.Bool('ord_killer%d_some' % j), z3.BitVecVal(1, 64), z3.BitVecVal(0, 64)), {1: (kv,), 0: ()}))
+        killers = tuple(killers)
+    else:
+        ex.static_values[TT] = MapV({})
+        from mirsym.models import NONE
+        killers = (NONE, NONE)
+    # RwLock / HashMap models of the abstract game (table access only)
+    from mirsym.models import ok, mk_option, NONE
+    ex.model(r'^std::sync::RwLock::<.*>::(read|write)$', lambda ctx, p: ok(p))
+    def guard_deref(ctx, gp):
+        return ctx.deref(gp) if isinstance(gp, Ptr) and not isinstance(ctx.deref(gp), MapV) else gp
+    ex.model(r'^<std::sync::RwLock(Read|Write)Guard<.*> as std::ops::Deref(Mut)?>::deref(_mut)?$', guard_deref)
+
+    def tt_get(ctx, mp, kp_):
+        m = ctx.deref(mp)
+        k = ctx.deref(kp_)[0]
+        e = m.d.get(k.v) if isinstance(k, CI) else None
+        if e is None:
+            return NONE
+        return mk_option(e[0], ctx.ex.alloc(ctx.st, e[1]))
+    ex.model(r'^std::collections::HashMap::<board::zkey::ZKey, board::transposition_table::TTEntry, .*>::get::<.*>$', tt_get)
+    ex.loop_bound = max(ex.loop_bound, n + 4)
+    st = State()
+    mp = ex.alloc(st, Seq.of(plies))
+    kpn = ex.alloc(st, killers)
+    r = ex.call('search::move_orderer::MoveOrderer::new', [mp, (CI(key, 64),), kpn], ['&[board::ply::Ply]', 'board::zkey::ZKey', '&[std::option::Option<board::ply::Ply>; 2]'],
+                'search::move_orderer::MoveOrderer', st, 'harness')
+    if r is None:
+        run.inconclusive.append('%s: MoveOrderer::new diverges' % name)
+        return
+    ov, st = r
+    op = ex.alloc(st, ov)
+    ids, somes = [], []
+    NEXT = '<search::move_orderer::MoveOrderer as std::iter::Iterator>::next'
+    for k in range(n + 1):
+        r = ex.call(NEXT, [op], ['&mut search::move_orderer::MoveOrderer'], 'std::option::Option<board::ply::Ply>', st, 'harness')
+        if r is None:
+            run.inconclusive.append('%s: next() diverges at call %d' % (name, k))
+            return
+        o, st = r
+        somes.append(bv(o.d) == 1 if not isinstance(o.d, CI) else z3.BoolVal(o.d.v == 1))
+        if 1 in o.pay and o.pay[1]:
+            p = o.pay[1][0]
+            if symbolic:
+                ids.append(z3.ZeroExt(8, bv(p[0][0])) * 8 + z3.ZeroExt(8, bv(p[0][1])))
+            else:
+                ids.append(z3.ZeroExt(8, bv(p[0][0])) * 8 + z3.ZeroExt(8, bv(p[0][1])) + z3.ZeroExt(8, bv(p[1][1])) * 64 + z3.ZeroExt(8, bv(p[1][0])) * 512)
+        else:
+            ids.append(None)
+    run.absorb(ex)
+    bad = [z3.Not(somes[k]) for k in range(n)] + [somes[n]]
+    for k in range(n):
+        if ids[k] is None:
+            bad.append(z3.BoolVal(True))
+            continue
+        bad.append(z3.UGE(ids[k], n))
+        for j in range(k):
+            if ids[j] is not None:
+                bad.append(ids[k] == ids[j])
+    if symbolic and n >= 2:
+        # vacuity: the orderer really depends on the scores (the first move yielded is not always move 0)
+        if not run.witness(name, ex.pre + [zb(st.guard), ids[0] != 0]):
+            return
+    q = run.decide(name, ex.pre + [zb(st.guard), z3.Or(*bad)], kind='smt',
+                   note='MoveOrderer yields each of the %d moves exactly once, then None (%s)' % (n, 'all score patterns' if symbolic else 'capacity check, distinct quiet moves'))
+    if q.verdict == 'sat':
+        report(run, q, name, 'the move orderer does not yield every one of %d moves exactly once' % n)
+    for ob, qq in run.check_obligations(ex, name):
+        report(run, qq, name, 'panic reachable in the move orderer with %d moves: %s %s' % (n, ob.where.split('::')[-1], ob.msg[:80]))
+
+
 def worker(run, job):
     kind, n = job
+    if kind == 'ORD':
+        step_orderer(run, n)
+        return
     {'AB': step_alpha_beta, 'Q': step_quiescence, 'R': step_root}[kind](run, n) if kind != 'W' else step_wiring(run)
 
 
@@ -289,6 +405,7 @@ def check(run, replay=None):
     run.extra['explanation'] = __doc__
     N = 3      # four generated moves: Q, R and AB queries get no verdict within 60 s (tried); stated bound for both tiers
     jobs = [('AB', n) for n in range(1, N + 1)] + [('Q', n) for n in range(0, N + 1)] + [('R', n) for n in range(1, N + 1)] + [('W', 0)]
+    jobs += [('ORD', n) for n in (1, 2, 3, 4, 5, 6, 63, 64, 65, 127, 128, 129, 218)]
     run.bounds.append('nodes with 1..%d pseudo-legal moves (quiescence: 0..%d); any depth (induction over the tree height); any ply 1..200; all windows MIN <= alpha < beta <= MAX' % (N, N))
     run.outside += ['nodes with more moves than the bound (the loop body is uniform, but this is not proved by a loop invariant)',
                     'transposition table active (C12, C13)', 'limits / stop (C09, C13)',
